@@ -52,36 +52,42 @@ PARSER_TRUST = ['the real parser is driven through process()/packet()/set_filter
 
 PROPS = {
     'C02': {
+        'source_transfer': ['TransferUbx'],
         'source_tie': ['UbxParser', 'Checksum'],
         'jobs': [{'component': 'ubx', 'profile': 'grammar', 'quick': 2400, 'thorough': 6000, 'exhaustive': 'both'}],
         'exhaustive_note': 'one transition for each parser state x 256 next bytes x 3 filters x 3 continuations, black box',
         'trusted': PARSER_TRUST,
     },
     'C03': {
+        'source_transfer': ['TransferUbx'],
         'source_tie': ['UbxParser', 'Checksum'],
         'jobs': [{'component': 'ubx', 'profile': 'wild', 'quick': 2400, 'thorough': 6000, 'exhaustive': 'both'}],
         'exhaustive_note': 'one transition for each parser state x 256 next bytes x 3 filters x 3 continuations, black box',
         'trusted': PARSER_TRUST,
     },
     'C09': {
+        'source_transfer': ['TransferUbx', 'TransferNmea'],
         'source_tie': ['UbxParser', 'NmeaParser'],
         'jobs': [{'component': 'ubx', 'profile': 'chunks', 'quick': 900, 'thorough': 2500},
                  {'component': 'nmea', 'profile': 'chunks', 'quick': 1500, 'thorough': 3000}],
         'trusted': PARSER_TRUST,
     },
     'C11': {
+        'source_transfer': ['TransferUbx'],
         'source_tie': ['UbxParser'],
         'jobs': [{'component': 'ubx', 'profile': 'ops', 'quick': 3000, 'thorough': 6000, 'exhaustive': 'thorough'}],
         'trusted': PARSER_TRUST + ['object identity of payload buffers: explicit heap model (Model/HeapParser), tied by re-reading every '
                                    'handed-out payload object at the end of each history'],
     },
     'C16': {
+        'source_transfer': ['TransferNmea'],
         'source_tie': ['NmeaParser'],
         'jobs': [{'component': 'nmea', 'profile': 'count', 'quick': 4000, 'thorough': 10000, 'exhaustive': 'both'}],
         'exhaustive_note': 'one transition for each of the 5 NMEA states (checksum about to match / not) x 256 bytes x 4 continuations',
         'trusted': PARSER_TRUST,
     },
     'C01': {
+        'source_transfer': ['TransferFrame'],
         'source_tie': ['UbxFrame', 'Checksum'],
         'jobs': [{'component': 'frame', 'profile': 'quick', 'quick': 60, 'thorough': 400},
                  {'component': 'frame', 'profile': 'all-lengths', 'quick': 0, 'thorough': 1},
@@ -90,6 +96,7 @@ PROPS = {
         'trusted': ['frames are ad-hoc UbxFrame subclasses with arbitrary CID; `data` is assigned directly, to_bytes() is the method under test'],
     },
     'C15': {
+        'source_transfer': ['TransferFrame'],
         'source_tie': ['Checksum'],
         'jobs': [{'component': 'ck', 'profile': 'quick', 'quick': 900, 'thorough': 0},
                  {'component': 'ck', 'profile': 'all-states', 'quick': 0, 'thorough': 3000}],
@@ -159,6 +166,7 @@ PROPS = {
         'assumptions': ['partial: the OS serial driver and gpsd themselves; gpsd replies are ASCII'],
     },
     'C18': {
+        'source_transfer': ['TransferUbx', 'TransferNmea'],
         'source_tie': ['UbxParser', 'NmeaParser'],
         'jobs': [{'component': 'scan', 'profile': 'scan', 'quick': 3000, 'thorough': 8000}],
         'trusted': ['stub serial port with a timed byte script on the virtual clock'],
